@@ -205,6 +205,7 @@ RULE = (
     "'min'/'max' (on the equality set for optimality, on the relaxed inf-norm set for the 'better than possible' bracket); SLSQP witnesses "
     "(verified feasible) for the quadratic goals. Non-trivial = another goal's optimum has a clearly worse value of the selected goal."
     " A fifth of the systems have two sources with proportional captures."
+    " Rounded targets that stay in the gamut are fitted as int64 and as float arrays: equal intensities."
 )
 
 PROP = Prop(
